@@ -125,7 +125,7 @@ func deepCopy(v reflect.Value) reflect.Value {
 // mutateDoc: structure-aware edits of a valid document
 func (h *H) mutateDoc(d []byte) []byte {
 	s := string(d)
-	switch h.Intn(12) {
+	switch h.Intn(14) {
 	case 0: // edit a key: the ways an object key can (or must not) match a field name
 		// pick one of the keys of the document (not always the first)
 		var keys [][2]int
@@ -185,6 +185,46 @@ func (h *H) mutateDoc(d []byte) []byte {
 			if i := strings.Index(s, old); i >= 0 && h.Bool() {
 				s = s[:i] + repl + s[i+len(old):]
 				break
+			}
+		}
+	case 11, 12, 13: // replace the value at a RANDOM position (after ':' '[' or ',') by null or another token: a null that follows
+		// earlier non-null members or elements must still reset / leave the target as encoding/json does
+		var pos []int
+		inStr := false
+		for i := 0; i+1 < len(s); i++ {
+			c := s[i]
+			if c == '\\' && inStr {
+				i++
+				continue
+			}
+			if c == '"' {
+				inStr = !inStr
+			}
+			if !inStr && (c == ':' || c == '[' || c == ',') && s[i+1] != ']' && s[i+1] != '}' {
+				pos = append(pos, i+1)
+			}
+		}
+		if len(pos) > 0 {
+			st := pos[h.Intn(len(pos))]
+			// end of the value token starting at st (scalars and strings only; containers are left alone)
+			en := st
+			if s[st] == '"' {
+				for en = st + 1; en < len(s) && s[en] != '"'; en++ {
+					if s[en] == '\\' {
+						en++
+					}
+				}
+				en++
+			} else if s[st] != '{' && s[st] != '[' {
+				for en < len(s) && !strings.ContainsRune(",]}", rune(s[en])) {
+					en++
+				}
+			}
+			if en > st && en <= len(s) {
+				// only if what follows the string is not ':' (then it was a key)
+				if !(en < len(s) && s[en] == ':') {
+					s = s[:st] + h.Pick([]string{"null", "null", "null", "0", `""`, "false", "[]", "{}", "1"}) + s[en:]
+				}
 			}
 		}
 	case 2: // duplicate a member with a different value
@@ -283,8 +323,13 @@ func opUnmarshal(a []string) (string, string, string) {
 			d = hh.genJSON(0)
 		}
 		doc = d
-		for k := hh.Intn(3); k > 0; k-- {
-			doc = hh.mutateDoc(doc)
+		if len(a) > 2 {
+			// null sweep: the k-th value position of the document is replaced by null (every position is visited by the runner)
+			doc = nullAt(doc, atoi(a[2]))
+		} else {
+			for k := hh.Intn(3); k > 0; k-- {
+				doc = hh.mutateDoc(doc)
+			}
 		}
 	}
 	// target: fresh or pre-populated (history of earlier decodes)
@@ -450,4 +495,62 @@ func runC02(h *H) {
 	for i := 0; i < N; i++ {
 		h.DoRisky("json.unmarshal", strconv.FormatUint(h.U64(), 10), unmarshalSettings[h.Intn(len(unmarshalSettings))])
 	}
+	// null sweep over value positions: `null` after earlier non-null members / elements, in every container kind
+	for i := 0; i < N/3; i++ {
+		sub := strconv.FormatUint(h.U64(), 10)
+		set := unmarshalSettings[h.Intn(len(unmarshalSettings))]
+		for k := 0; k < 4; k++ {
+			h.DoRisky("json.unmarshal", sub, set, strconv.Itoa(k+h.Intn(3)*4))
+		}
+	}
+}
+
+// nullAt replaces the k-th (mod count) scalar or string VALUE of the document (not a key) by null.
+func nullAt(d []byte, k int) []byte {
+	s := string(d)
+	type span struct{ st, en int }
+	var pos []span
+	inStr := false
+	for i := 0; i+1 < len(s); i++ {
+		c := s[i]
+		if inStr {
+			if c == '\\' {
+				i++
+			} else if c == '"' {
+				inStr = false
+			}
+			continue
+		}
+		if c == '"' {
+			inStr = true
+			continue
+		}
+		if (c == ':' || c == '[' || c == ',') && s[i+1] != ']' && s[i+1] != '}' && s[i+1] != '{' && s[i+1] != '[' {
+			st := i + 1
+			en := st
+			if s[st] == '"' {
+				for en = st + 1; en < len(s) && s[en] != '"'; en++ {
+					if s[en] == '\\' {
+						en++
+					}
+				}
+				en++
+				if en < len(s) && s[en] == ':' {
+					continue // a key
+				}
+			} else {
+				for en < len(s) && !strings.ContainsRune(",]}", rune(s[en])) {
+					en++
+				}
+			}
+			if en <= len(s) {
+				pos = append(pos, span{st, en})
+			}
+		}
+	}
+	if len(pos) == 0 {
+		return d
+	}
+	p := pos[k%len(pos)]
+	return []byte(s[:p.st] + "null" + s[p.en:])
 }
